@@ -46,7 +46,16 @@ def run(chk):
         reqs = ["s%d" % p for p in allow] + ["s%d" % p for p in rng.sample(others, min(len(others), 5))] + ["n"]
         rng.shuffle(reqs)
         cases.append("authallow %s %d %s" % (",".join(map(str, allow)) or "-", rng.choice([1, 1, 4]), " ".join(reqs)))
-    ci = run_impl("layers", cases)
+    # a third of the allow-list requests also carry one of the extensions the library attaches elsewhere (a Direction, a
+    # ConnectionOrigin): none of them is the sender's identity, the verdict is the same (the model gets the plain request)
+    def decorate(c):
+        t = c.split()
+        if not t[0].startswith("authallow"):
+            return c
+        k = 4 if t[0] == "authallow2" else 3
+        return " ".join(t[:k] + [(r + chk.rng.choice("oic")) if chk.rng.random() < 0.33 else r for r in t[k:]])
+    sent = [decorate(c) for c in cases]
+    ci = run_impl("layers", sent)
     # stacked allow-lists: the model is the single layer with the intersection of the two lists
     def single(c):
         t = c.split()
@@ -55,14 +64,14 @@ def run(chk):
         both = sorted(set(t[1].split(",")) & set(t[2].split(",")) - {"-"}, key=int)
         return "authallow %s %s" % (",".join(both) or "-", " ".join(t[3:]))
     cm = run_model([single(c) for c in cases])
-    for c, a, b in zip(cases, ci, cm):
+    for c, sc_, a, b in zip(cases, sent, ci, cm):
         chk.evaluations += 1
         t = c.split()
         chk.count(t[0])
         if t[0] == "authallow2":
             t = single(c).split()
         if a.startswith(("PANIC", "CRASH", "TIMEOUT", "HANG")):
-            chk.monitor_fail("auth layer panicked", dict(case=c, impl=a))
+            chk.monitor_fail("auth layer panicked", dict(case=sc_, impl=a))
             continue
         outs, inv = a.rsplit(" invoked=", 1) if " invoked=" in a else ("", a.split("invoked=")[1])
         outs = outs.split()
@@ -91,13 +100,13 @@ def run(chk):
                     want.append("r" + r[1:])
         if outs != want:
             bad = [i for i, (x, y) in enumerate(zip(outs, want)) if x != y]
-            chk.monitor_fail("request %s: outcome %s but the authorizer's verdict requires %s" % (bad[:1], [outs[i] for i in bad[:1]], [want[i] for i in bad[:1]]), dict(case=c, impl=a))
+            chk.monitor_fail("request %s: outcome %s but the authorizer's verdict requires %s" % (bad[:1], [outs[i] for i in bad[:1]], [want[i] for i in bad[:1]]), dict(case=sc_, impl=a))
         if inv != want_inv:
-            chk.monitor_fail("the wrapped service was invoked for %s, accepted requests are %s" % (inv, want_inv), dict(case=c, impl=a))
+            chk.monitor_fail("the wrapped service was invoked for %s, accepted requests are %s" % (inv, want_inv), dict(case=sc_, impl=a))
         if want_inv and len(want_inv) < len(reqs):
             chk.nontriv(c)
         if a != b:
-            chk.disagree(c, a, b, "layers/auth")
+            chk.disagree(sc_, a, b, "layers/auth")
     chk.sample(dict(case=cases[0], impl=ci[0], model=cm[0]))
     chk.sample(dict(case=cases[1], impl=ci[1], model=cm[1]))
     chk.assumptions.append("authorizer closures are deterministic functions of the request (as the AuthorizeRequest contract implies)")
@@ -113,7 +122,9 @@ def replay(chk, path):
     cases = [x["case"]["case"] for x in r.get("failing_inputs", [])] + [x["case"] for x in r.get("correspondence_disagreements", [])]
     if not chk.prepare():
         return
-    for c, a, b in zip(cases, run_impl("layers", cases), run_model(cases)):
+    import re
+    plain = [re.sub(r"\b(s\d+|n)[oic]\b", r"\1", c) for c in cases]     # the model gets the requests without their decorations
+    for c, a, b in zip(cases, run_impl("layers", cases), run_model(plain)):
         log("case:  %s\nimpl:  %s\nmodel: %s" % (c, a, b))
         if a != b:
             chk.disagree(c, a, b, "layers/replay")
